@@ -446,8 +446,6 @@ func write(v any) bool {
 				}
 			}
 		}
-	case senOut:
-		writeSEN(v)
 	default:
 		if plan != nil {
 			root["src"] = v
@@ -458,7 +456,11 @@ func write(v any) bool {
 				v = root["asm"]
 			}
 		}
-		writeJSON(v)
+		if senOut {
+			writeSEN(v)
+		} else {
+			writeJSON(v)
+		}
 	}
 	return false
 }
